@@ -130,7 +130,7 @@ extern "C" void h_seg(int t, int layout, int allowUnassigned) {
 // parentLabels=0: triangles are only labelled with leaf parts (segments without sub-segments, or sub-segments);
 // parentLabels=1: a triangle may also carry the id of a segment that has sub-segments (assertion ids get the
 // suffix -parentlabel so that the known defect of that case is identified separately).
-extern "C" void h_seg_delete(int t, int layout, int n, int k, int parentLabels) {
+extern "C" void h_seg_delete(int t, int layout, int n, int k, int parentLabels, int second) {
 	BSSubIndexTriShape s;
 	s.vertData.resize(n);
 	s.numVertices = n;
@@ -157,24 +157,51 @@ extern "C" void h_seg_delete(int t, int layout, int n, int k, int parentLabels) 
 			usesParent |= (!sg.subs.empty() && labels[i] == sg.partID);
 	sym_assume(usesParent == (parentLabels != 0));
 	s.SetSegmentation(inf, labels);
-	std::vector<uint16_t> idx(k);
-	for (int i = 0; i < k; i++) {
-		idx[i] = sym_u16("del");
-		sym_assume(idx[i] < n);
-		if (i > 0)
-			sym_assume(idx[i - 1] < idx[i]);
+	int ncur = n;
+	for (int round = 0; round < (second ? 2 : 1); round++) {
+		int kk = round == 0 ? k : 1;
+		if (ncur < kk)
+			break;
+		NifSegmentationInfo inf0;
+		std::vector<int> out0;
+		s.GetSegmentation(inf0, out0);
+		std::vector<Triangle> tri0 = s.triangles;
+		std::vector<uint16_t> idx(kk);
+		for (int i = 0; i < kk; i++) {
+			idx[i] = sym_u16(round ? "del2" : "del");
+			sym_assume(idx[i] < ncur);
+			if (i > 0)
+				sym_assume(idx[i - 1] < idx[i]);
+		}
+		s.notifyVerticesDelete(idx);
+		ncur -= kk;
+		if (!parentLabels)
+			check_ranges(s, s.GetNumTriangles());
+		NifSegmentationInfo inf2;
+		std::vector<int> out;
+		s.GetSegmentation(inf2, out);
+		sym_assert(out.size() == s.GetNumTriangles(), "C17-count: label list length differs from triangle count after deletion");
+		for (size_t j = 0; j < out.size(); j++)
+			sym_assert(out[j] >= 0 && out[j] < nparts, parentLabels ? "C17-cover-parentlabel: a triangle is in no range after deletion" : "C17-cover: a triangle is in no range after deletion");
+		for (size_t j = 1; j < out.size(); j++)
+			sym_assert(out[j - 1] <= out[j], parentLabels ? "C17-ordered-parentlabel: ranges are not ordered after deletion" : "C17-ordered: ranges are not ordered after deletion");
+		if (!parentLabels && out0.size() == tri0.size()) {
+			// every surviving triangle keeps the label it had before the deletion
+			size_t o = 0;
+			for (size_t i = 0; i < tri0.size(); i++) {
+				bool gone = false;
+				for (auto d : idx)
+					gone |= (tri0[i].p1 == d) | (tri0[i].p2 == d) | (tri0[i].p3 == d);
+				if (gone)
+					continue;
+				sym_assert(o < out.size(), "C17-delete-survivor: a triangle without deleted corner is missing from the labels after deletion");
+				if (o < out.size())
+					sym_assert(out[o] == out0[i], "C17-delete-label: a surviving triangle changed its segment after a vertex deletion");
+				o++;
+			}
+			sym_assert(o == out.size(), "C17-delete-extra: more labelled triangles than survivors after deletion");
+		}
 	}
-	s.notifyVerticesDelete(idx);
-	if (!parentLabels)
-		check_ranges(s, s.GetNumTriangles());
-	NifSegmentationInfo inf2;
-	std::vector<int> out;
-	s.GetSegmentation(inf2, out);
-	sym_assert(out.size() == s.GetNumTriangles(), "C17-count: label list length differs from triangle count after deletion");
-	for (size_t j = 0; j < out.size(); j++)
-		sym_assert(out[j] >= 0 && out[j] < nparts, parentLabels ? "C17-cover-parentlabel: a triangle is in no range after deletion" : "C17-cover: a triangle is in no range after deletion");
-	for (size_t j = 1; j < out.size(); j++)
-		sym_assert(out[j - 1] <= out[j], parentLabels ? "C17-ordered-parentlabel: ranges are not ordered after deletion" : "C17-ordered: ranges are not ordered after deletion");
 	sym_reach("end");
 }
 
